@@ -102,6 +102,11 @@ def directed(prop, world, quick):
                       {"op": "getinfo", "c": 1, "target": 2}, {"op": "setinfo", "c": 2, "name": [], "icon": 3, "icon4": False, "opts": 0, "auto": [34]},
                       {"op": "userlist", "c": 1}, {"op": "close", "c": 2}, {"op": "userlist", "c": 1}]
             out.append({"world": world, "steps": steps})
+        # a disconnect in two steps (peer gone / registry entry removed) with another user's request in between
+        steps = [connect(1), login(1, "adm", [1]), connect(2, "10.2.2.2"), login(2), connect(3, "10.1.1.12"), login(3, "mod", [3]),
+                 {"op": "userlist", "c": 1}, {"op": "closebegin", "c": 2}, {"op": "userlist", "c": 1}, {"op": "pm", "c": 3, "target": 2, "msg": [112]},
+                 {"op": "closeend", "c": 2}, {"op": "userlist", "c": 1}, {"op": "userlist", "c": 3}]
+        out.append({"world": world, "steps": steps})
         # away and back: everybody, the user itself included, is told both times
         steps = [connect(1), login(1, "adm", [1]), connect(2, "10.2.2.2"), login(2), {"op": "userlist", "c": 1}, {"op": "userlist", "c": 2},
                  {"op": "goneidle", "c": 2}, {"op": "wake", "c": 2}, {"op": "userlist", "c": 1}, {"op": "userlist", "c": 2}]
